@@ -15,7 +15,7 @@ class CheckError(Exception):
 
 # --------------------------------------------------------------------------- facts
 class Fn:
-    __slots__ = ("d", "name", "blocks", "_preds", "_dom", "crate", "_mv")
+    __slots__ = ("d", "name", "blocks", "_preds", "_dom", "crate", "_mv", "_calldest")
 
     def __init__(self, d, crate):
         self.d = d
@@ -24,6 +24,7 @@ class Fn:
         self._preds = None
         self._dom = None
         self._mv = None
+        self._calldest = None
         self.crate = crate
 
     @property
